@@ -267,6 +267,11 @@ void dir_p02b(void) {
                 if (h_chance(70)) sk += (size_t) sprintf(scripts[i] + sk, "/iC,%s", hx);
                 else { char hp[300]; const char *pp = pats[h_below(NP)]; hexs(hp, pp, strlen(pp)); sk += (size_t) sprintf(scripts[i] + sk, "/iM,%s,%s", hp, hx); }
             }
+            /* the numeric suffixes with the caller's default for those left out (defaults that need all 32 bits included) */
+            if (strchr(e[i].pattern, '#') && h_chance(70)) {
+                static const int dfl[] = {-1, 0, 7, 32767, 32768, -32769, 100000, 2147483647, (-2147483647 - 1)};
+                sk += (size_t) sprintf(scripts[i] + sk, "/iN,%u,%d", 1 + h_below(4), dfl[h_below(9)]);
+            }
             e[i].script = scripts[i];
         }
         table_of(table, e, ne);
@@ -316,6 +321,62 @@ void dir_p09b(void) {
         if (shape == 0 && tail != 2) k += (size_t) sprintf(line + k, " -");
         else if (shape == 1 || shape == 2 || tail == 2) { bl += (size_t) sprintf(b + bl, "\n"); k += chunks_of(line + k, b, bl); }
         else { if (bl) k += chunks_of(line + k, b, bl); k += (size_t) sprintf(line + k, " -"); }
+        emit2(line);
+    }
+}
+
+/* ---- C02 (the path is empty at the start of every message) after an input overrun: a fragment without terminator is
+ * pending, the next chunk does not fit (-363), then a complete well-formed message arrives.  The pending fragment is
+ * abandoned with the overrun: the message is dispatched by its own headers, not glued to the fragment. */
+void dir_p02c(void) {
+    static const ent_t pool[] = { {"CONFigure:RANGe", "iT/pI,32,1,0"}, {"CONFigure:STATe", "iT/pI,32,1,0"}, {"RANGe", "iT/pI,32,1,0"}, {"STATe", "iT/pI,32,1,0"}, {"*OPC", "iT"},
+                                  {"TEST:A", "iT"}, {"TEST:A:B", "iT"}, {"A", "iT"}, {"SYSTem:ERRor[:NEXT]?", "iT/rI,32,1,1,10"}, {"ERRor?", "iT/rI,32,1,2,10"} };
+    static const char *frags[] = { "CONF:", "CONF", "TEST:A;", "TEST:A:", "SYST:", "SYST:ERR:", ":", "*", "CONF:RANG 1;", "TEST:" };
+    static const char *msgs[] = { "RANG 5;STAT 1\n", "STAT 1\n", "A\n", "B\n", "ERR?\n", "RANG 2;:CONF:STAT 0\n", "*OPC;STAT 1\n", "NEXT?\n", "A;B\r\n" };
+    unsigned long n = h_thorough ? 6000 : 600;
+    static char line[9000], table[3000], junk[200];
+    table_of(table, pool, (int)(sizeof pool / sizeof pool[0]));
+    for (; n; n--) {
+        int bufsize = 24 + (int) h_below(24); const char *f = frags[h_below(10)], *m = msgs[h_below(9)]; size_t k, jl, i;
+        if ((int) strlen(m) + 1 >= bufsize) continue;
+        jl = (size_t)(bufsize - (int) strlen(f)) + h_below(30);                 /* does not fit behind the fragment */
+        for (i = 0; i < jl && i < sizeof junk - 1; i++) junk[i] = "ABC 123,;:"[h_below(10)];
+        k = (size_t) sprintf(line, "P %d %d %s ", bufsize, 4 + (int) h_below(8), table);
+        k += hexs(line + k, f, strlen(f)); line[k++] = ' ';
+        k += hexs(line + k, junk, i);
+        k += chunks_of(line + k, m, strlen(m));
+        if (h_chance(30)) { const char *m2 = msgs[h_below(9)]; k += chunks_of(line + k, m2, strlen(m2)); }
+        line[k] = 0;
+        emit2(line);
+    }
+}
+
+/* ---- C09: the handler B's header selects does not depend on what ran before.  Overlapping patterns: A is accepted only by the
+ * later, more general entry; B is accepted by both and must run the FIRST one, as on a fresh context (a dispatcher that
+ * remembers the entry of the previous unit or message gets this wrong only after A). */
+void dir_p09c(void) {
+    static const struct { const char *specific, *generic, *h1, *h2; } pairs[] = {
+        {"TEST:CHANnel#", "TEST:CHANnel#[:SUB#]", "TEST:CHAN2:SUB3", "TEST:CHAN4"},
+        {"VOLTage:DC?", "[:MEASure]:VOLTage:DC?", "MEAS:VOLT:DC?", "VOLT:DC?"},
+        {"TEST:C", "TEST[:A]:C", "TEST:A:C", "TEST:C"},
+        {"OUTPut1:STATe", "OUTPut#:STATe", "OUTP2:STAT", "OUTP1:STAT"},
+        {"SYSTem:ERRor?", "SYSTem:ERRor[:NEXT]?", "SYST:ERR:NEXT?", "SYST:ERR?"},
+    };
+    unsigned long n = h_thorough ? 4000 : 400;
+    static char line[9000], table[4000], a[300], b[300];
+    for (; n; n--) {
+        ent_t e[4]; int p = (int) h_below(5), ne = 0; size_t k, al, bl; char h1[64], h2[64];
+        if (h_chance(40)) { e[ne].pattern = "*CLS"; e[ne++].script = "iT"; }
+        e[ne].pattern = pairs[p].specific; e[ne++].script = "iT/iN,2,-1/rI,32,1,1,10";
+        e[ne].pattern = pairs[p].generic; e[ne++].script = "iT/iN,2,-1/rI,32,1,2,10";
+        table_of(table, e, ne);
+        strcpy(h1, pairs[p].h1); strcpy(h2, pairs[p].h2); randcase(h1); randcase(h2);
+        al = (size_t) sprintf(a, "%s\n", h1); if (h_chance(30)) al += (size_t) sprintf(a + al, "%s\n", h1);
+        if (h_chance(50)) bl = (size_t) sprintf(b, "%s\n", h2); else bl = (size_t) sprintf(b, "%s;:%s\n", h2, h2);
+        k = (size_t) sprintf(line, "P9 256 %d %s", 4 + (int) h_below(8), table);
+        k += chunks_of(line + k, a, al);
+        k += (size_t) sprintf(line + k, " |");
+        k += chunks_of(line + k, b, bl);
         emit2(line);
     }
 }
